@@ -183,6 +183,15 @@ for looked in (False, True):
     win = pw.universe         # compared from the date of the attachment on (the child has no index before it)
     if "k" not in win.columns: fail("dynamic-sub-strategy-has-a-universe-column", through="universe (the window up to now)", looked_at_before=looked, columns=list(map(str, win.columns)))
     elif not np.array_equal(win["k"].to_numpy()[1:], kw_.prices.to_numpy()[1:], equal_nan=True): fail("strategy-column-carries-child-index", node="p", child="k", looked_at_before=looked, column=[float(x) for x in win["k"].to_numpy()], index=[float(x) for x in kw_.prices.to_numpy()])
+# ---- a strategy that declared nothing - no children argument, or an empty list / dict / tuple - sees all tickers
+d_e = mkdata(6)
+for empty in (None, [], {}, ()):
+    se = Strategy("e", stack(), children=empty); se.setup(d_e); se.adjust(10000.0); se.update(d_e.index[0]); se.update(d_e.index[1])
+    evals += 1
+    if list(se.universe.columns) != list(d_e.columns): fail("a-strategy-that-declared-no-tickers-sees-all-tickers", children=repr(empty), universe=list(map(str, se.universe.columns)), data=list(map(str, d_e.columns)))
+    inner_e = Strategy("i", stack(), children=empty); top_e = Strategy("t", stack(), children=[inner_e]); top_e.setup(d_e)
+    evals += 1
+    if list(top_e["i"]._universe.columns) != list(d_e.columns): fail("a-strategy-that-declared-no-tickers-sees-all-tickers", children=repr(empty), level="sub-strategy", universe=list(map(str, top_e["i"]._universe.columns)), data=list(map(str, d_e.columns)))
 # ---- operations on a child before its first use: a string-declared child behaves like one constructed up front
 for op in ("close", "rebalance-to-zero", "allocate", "transact"):
     outcome = {}
